@@ -122,23 +122,26 @@ func (crashEngine) Generate(prop string, r *simrt.RNG, tier string, run int) *si
 		}
 	}
 	nops := r.Range(12, 45)
-	overrunShape := r.Chance(1, 3)
-	hugeHeightShape := r.Chance(1, 4)
+	// "open" runs may send a full block with an absurd height, which is known to
+	// make the topic validator reject every later well-formed full block
+	// (known_findings: C33 loop-dead/fullblock-receive); strict runs never do, so
+	// every liveness probe stays meaningful there.
+	open := r.Chance(1, 5)
+	if open {
+		sc.Knobs["open"] = 1
+	}
 	for i := 0; i < nops; i++ {
 		from := int64(r.Range(1, 6))
 		switch r.Weighted(16, 6, 8, 8, 8, 5, 4, 6, 5, 6, 4, 3, 8) {
 		case 0: // light block
 			mut := r.Intn(lmLast)
-			if mut == lmGroupOverrun && !overrunShape {
-				mut = lmCountMore
-			}
-			if overrunShape && r.Chance(1, 3) {
+			if r.Chance(1, 4) {
 				mut = lmGroupOverrun
 			}
 			sc.Ops = append(sc.Ops, simrt.Op{K: "lt", I: []int64{int64(r.Intn(nblk)), int64(mut), int64(r.Intn(1000)), from}})
 		case 1: // full block
 			mut := r.Intn(8)
-			if mut == 2 && !hugeHeightShape {
+			if mut == 2 && !open {
 				mut = 1
 			}
 			sc.Ops = append(sc.Ops, simrt.Op{K: "full", I: []int64{int64(r.Intn(nblk)), int64(mut), int64(r.Intn(1000)), from}})
@@ -166,7 +169,7 @@ func (crashEngine) Generate(prop string, r *simrt.RNG, tier string, run int) *si
 		case 12:
 			sc.Ops = append(sc.Ops, simrt.Op{K: "proof", I: []int64{int64(r.Range(1, 12)), int64(r.Intn(12)), int64(r.Intn(9)), int64(r.Intn(1000))}, S: []string{rawBytes()}})
 		}
-		if overrunShape && r.Chance(1, 6) {
+		if r.Chance(1, 8) {
 			// the later pool update that completes a pending light block
 			sc.Ops = append(sc.Ops, simrt.Op{K: "pool", I: []int64{int64(r.Intn(nblk)), int64(r.Intn(6)), int64(r.Intn(3))}}, simrt.Op{K: "tick", I: []int64{450}})
 		}
@@ -218,6 +221,7 @@ type c33World struct {
 	published []broadcast.SimPublished
 	lastRes   int
 	noValid   bool
+	open      bool
 }
 
 func frame(payload []byte) []byte {
@@ -233,7 +237,7 @@ func (crashEngine) run(ctx *simrt.Ctx) *simrt.Violation {
 	noValid := sc.Knob("no_validation", 0) == 1
 	n := newNode(ctx, nodeOpts{uid: uid, mempool: true, ltTimeout: sc.Knob("timeout_ms", 0), noValid: noValid})
 	defer n.close()
-	w := &c33World{noValid: noValid, ctx: ctx, n: n, replies: map[string][]scripted{}, ann: map[int]int64{}, used: map[string]int{}}
+	w := &c33World{noValid: noValid, open: sc.Knob("open", 0) == 1, ctx: ctx, n: n, replies: map[string][]scripted{}, ann: map[int]int64{}, used: map[string]int{}}
 	defer func() {
 		w.mu.Lock()
 		for k, c := range w.used {
@@ -388,7 +392,14 @@ func (w *c33World) exec(op *simrt.Op) {
 		b := w.blocks[int(op.Int(0))%len(w.blocks)]
 		blk := types.Clone(b.blk).(*types.Block)
 		p := op.Int(2)
-		switch op.Int(1) {
+		mut := op.Int(1)
+		if mut == 2 && !w.open {
+			mut = 1 // strict run: no absurd height before the liveness probes
+		}
+		if mut == 2 {
+			ctx.Fault("absurd_block_height")
+		}
+		switch mut {
 		case 1:
 			blk.Height = -1 - p
 		case 2:
